@@ -382,6 +382,36 @@ pub fn run(cx: &mut Ctx) {
                 cx.io("increment", json!({"in":hx(&orig),"out":hx(&v)}));
             }
         }
+        // runs of 0xff that do not start at byte 0 (a carry must neither be invented nor lost across words)
+        if len >= 2 {
+            for start in 1..len {
+                for (k, run) in [1usize, 7, 8, 9, 16].into_iter().enumerate() {
+                    if start + run > len {
+                        continue;
+                    }
+                    for low in [0x00u8, 0x01, 0xfe, 0xff] {
+                        let mut v = vec![0u8; len];
+                        for b in v.iter_mut().take(start) {
+                            *b = low;
+                        }
+                        for b in v.iter_mut().skip(start).take(run) {
+                            *b = 0xff;
+                        }
+                        let orig = v.clone();
+                        let mut want = v.clone();
+                        na::increment(&mut want);
+                        let c = || json!({"op":"sodium_increment","in":hx(&orig)});
+                        if call(cx, "C07|sodium_increment", "sodium_increment", c, || sodium_increment(&mut v)).is_some() {
+                            expect_eq(cx, "C07|sodium_increment|mismatch_vs_libsodium", &v, &want, c);
+                        }
+                        if k == 2 && start % 8 == 0 && low == 0x01 {
+                            cx.io("increment", json!({"in":hx(&orig),"out":hx(&v)}));
+                        }
+                    }
+                }
+            }
+            cx.cover("increment_inner_ff_runs", &format!("{}", len));
+        }
         cx.cover("increment_len", &format!("{}", len));
     }
 
